@@ -3,20 +3,20 @@ SPECIFICATION Spec
 VIEW View
 CONSTANTS
   defaultInitValue = defaultInitValue
-  Threads = {1}
+  Threads = {1,2}
   Main = 1
   L = 3
   Iters = 2
   Bp = 1
   LineStarts = {0, 2}
-  MaxCmd = 2
+  MaxCmd = 3
   Cmds = {"continue","stepi","step"}
   RunOut = TRUE
   Sigs = {"USR1","ALRM","INT"}
   Quiet = {"ALRM"}
   Transparent = {"INT"}
   MaxSend = 2
-  ProcTarget = FALSE
+  ProcTarget = TRUE
   FixQuietDup = TRUE
   FixQuietFront = FALSE
   FixStepIntr = FALSE
